@@ -9,7 +9,7 @@ HOOK_COMMITS = ["a1e4d44"]
 NOT_APPLICABLE = {}
 
 # properties whose check has been reviewed and verified on the unchanged tree; only these go into MANIFEST.json
-CLAIMED = ["C01", "C02", "C03", "C04", "C06", "C07", "C08", "C11", "C12", "C13", "C14", "C15", "C16", "C18", "C19", "C20"]
+CLAIMED = ["C01", "C02", "C03", "C04", "C06", "C07", "C08", "C09", "C11", "C12", "C13", "C14", "C15", "C16", "C18", "C19", "C20"]
 
 CHECKS = {
     "C13": dict(
@@ -347,6 +347,24 @@ CHECKS = {
         assumptions=["'current member id' = the id returned by the last JoinGroup exchange before Close if that exchange succeeded and the coordinator still lists the member",
                      "error codes are injected only into APIs on which Kafka documents them"],
         units=[dict(run="TestGenerations", checks_quick=250, checks_thorough=1500, shards_quick=4, shards_thorough=16, timeout=2400)],
+    ),
+    "C09": dict(
+        pkg="props/c09", level="exploration",
+        technique="model-based property testing (rapid) with harness-owned schedule points: generated Close / cancel / use-after-close scenarios for Writer, Reader and Transport against the fake cluster, invariants over the journal, the call results and a goroutine / connection census",
+        level_text=("Writer: generated writer scenarios (wsim) in which Close is issued while callers run, with calls parked at the schedule points writer.entered / writer.beforeBatch until Close has marked the writer closed, slow / failing brokers, retries and batch timers; "
+                    "oracles: Close returns (a hang is confirmed by two identical goroutine dumps), every accepted message was sent and its Completion ran before Close returned, nothing is produced or completed after Close returned, WriteMessages after Close = io.ErrClosedPipe, no library goroutine is left. "
+                    "Reader: plain and group readers with a call blocked in FetchMessage / CommitMessages, then Close or context end, against a normal / slow / fetch-stalling / heartbeat-stalling broker, also Close during a rebalance; oracles: bounded Close, LeaveGroup sent, no heartbeat / commit / fetch journalled after Close returned, "
+                    "io.EOF after Close, context error on cancel within 1 s, goroutine and connection census. Transport: round trips with a stalled response or a black-holed dial return the context's error when the context ends."),
+        level_note="interleavings are sampled (schedule points own the known windows, the rest is the Go scheduler); 'bounded' = watchdogs of several seconds, late-but-returned is inconclusive; goroutine census by stack dump",
+        rule=("case = (scenario, schedule table, broker behaviour, blocked call, ending event); non-trivial = Close or context end overlapped a call in flight (a caller returned after Close started, a call was parked at a schedule point, or a call was blocked when the event fired); "
+              "distinct by the case value."),
+        assumptions=["a CommitMessages call blocked with a live context when the Reader is closed is not covered by the statement (observation only)",
+                     "network timeouts in the scenarios are <= 5 s, so goroutines may outlive Close by that much"],
+        units=[
+            dict(run="TestWriterClose", checks_quick=250, checks_thorough=2500, shards_quick=4, shards_thorough=12, timeout=2400),
+            dict(run="TestReaderClose", checks_quick=40, checks_thorough=300, shards_quick=6, shards_thorough=16, timeout=2400),
+            dict(run="TestTransportCancel", checks_quick=150, checks_thorough=2000, shards_quick=1, shards_thorough=4, timeout=1200),
+        ],
     ),
     "C03": dict(
         pkg="props/c03", level="exploration",
